@@ -45,6 +45,8 @@ def gen_cp_case(rng: random.Random, tier: str) -> Dict[str, Any]:
     if cfg.n_steps == 0 and cfg.pre_ops == 0 and cfg.post_ops == 0:
         cfg.pre_ops = 1
     case = case_from_cfg(rng, cfg)
+    if cfg.bwd_thread and cfg.p_sync > 0:
+        case["late"] = late_kernels(rng, case)
     case["rank"] = rng.randrange(cfg.n_ranks)
     case["incl"] = rng.random() < 0.6
     case["zero"] = rng.random() < 0.4
@@ -109,6 +111,81 @@ def run_analysis(ta, case):
         a = rr.randrange(n_inst)
         inst = (a, rr.randrange(a, n_inst))
     return r, ann, inst
+
+
+def skew_case(rng: random.Random) -> Dict[str, Any]:
+    """Two busy host threads inside one profiler step; thread A waits in a device synchronisation while thread B launches a kernel that ends
+    0-3 us AFTER the synchronising call returned (A did not wait for it).  Both threads start with the step and A works until its end, so a
+    path that (wrongly) runs through B's kernel back into A's call is longer than the step."""
+    pid, A, B = 4000, 4000, 4001
+    base = rng.choice([0, 1000, 5000])
+    L = rng.randint(60, 120)
+    s0 = rng.randint(15, 25)                 # A: sync begins
+    e = rng.randint(s0 + 15, L - 15)         # A: sync returns
+    delta = rng.choice([0, 1, 1, 2, 2, 3])
+    ev: List[Dict[str, Any]] = []
+
+    def host(cat, name, tid, ts, dur, **a):
+        args = {"External id": len(ev) + 1}
+        args.update(a)
+        ev.append({"ph": "X", "cat": cat, "name": name, "pid": pid, "tid": tid, "ts": base + ts, "dur": dur, "args": args})
+
+    def dev(name, stream, ts, dur, corr, cat="kernel", **a):
+        args = {"device": 0, "context": 1, "stream": stream, "correlation": corr}
+        args.update(a)
+        ev.append({"ph": "X", "cat": cat, "name": name, "pid": 0, "tid": stream, "ts": base + ts, "dur": dur, "args": args})
+
+    host("cpu_op", "aten::mm", A, 1, s0 - 2)                                    # first file entry: a host operator
+    host("user_annotation", "ProfilerStep#1", A, 0, L)
+    host("cuda_runtime", "cudaLaunchKernel", A, 3, 2, cbid=211, correlation=11)
+    k1_end = rng.randint(s0 + 2, e)                                             # A's own kernel: the sync waits for it
+    dev(rng.choice(gen.K_COMP), 7, 6, k1_end - 6, 11, queued=0)
+    host("cuda_runtime", "cudaDeviceSynchronize", A, s0, e - s0, cbid=165, correlation=12)
+    ev.append({"ph": "X", "cat": "cuda_sync", "name": "Context Sync", "pid": 0, "tid": -1, "ts": base + s0 + 1, "dur": e - s0 - 1,
+               "args": {"cuda_sync_kind": "Context Sync", "stream": -1, "correlation": 12, "device": 0, "context": 1,
+                        "wait_on_stream": -1, "wait_on_cuda_event_record_corr_id": -1, "wait_on_cuda_event_id": -1}})
+    host("cpu_op", "aten::sum", A, e, L - e)
+    lb = rng.randint(s0 + 2, e - 4)                                             # B launches while A waits
+    host("cpu_op", "aten::conv2d", B, 0, lb + 4)
+    host("cuda_runtime", "cudaLaunchKernel", B, lb, 2, cbid=211, correlation=21)
+    ks = lb + rng.choice([1, 2, 3])
+    dev(rng.choice(gen.K_COMP), 9, ks, e + delta - ks, 21, queued=0)
+    first, rest = ev[0], ev[1:]
+    rng.shuffle(rest)
+    meta = {"schemaVersion": 1, "distributedInfo": {"backend": "nccl", "rank": 0, "world_size": 1},
+            "deviceProperties": [{"id": 0, "name": "GPU", "numSms": 108}], "traceName": "rank0.json"}
+    rt = gen.RankTrace(rank=0, events=[first] + rest, meta=meta, fmt="json.gz", ticks=1, base=base)
+    return {"ranks": [rt.__dict__], "rank": 0, "incl": True, "zero": rng.random() < 0.4, "ann": "ProfilerStep", "inst": "none",
+            "iseed": rng.randrange(1000), "prefix": [], "skew": delta}
+
+
+def late_kernels(rng: random.Random, case: Dict[str, Any]) -> int:
+    """A kernel that another thread launched WHILE a synchronising call was waiting ends 1-2 us after that call returns (the call did not
+    wait for it).  Returns how many kernels were moved.  Stream order and every later synchronisation are kept consistent."""
+    moved = 0
+    for rk in case["ranks"]:
+        evs = [e for e in rk["events"] if e.get("ph") == "X" and "dur" in e]
+        syncs = [e for e in evs if e["pid"] != 0 and ("Synchronize" in e["name"])]
+        launches = {e["args"]["correlation"]: e for e in evs if e["pid"] != 0 and "correlation" in e.get("args", {})}
+        kernels = [e for e in evs if e["pid"] == 0 and e.get("cat") in ("kernel", "gpu_memcpy", "gpu_memset") and "correlation" in e.get("args", {})]
+        for s_ in syncs:
+            s0, s1 = s_["ts"], s_["ts"] + s_["dur"]
+            for k in kernels:
+                l = launches.get(k["args"]["correlation"])
+                if l is None or l["tid"] == s_["tid"] or not (s0 < l["ts"] < s1) or k["ts"] > s1:
+                    continue
+                new_end = s1 + rng.choice((1, 2))
+                if new_end <= k["ts"] + k["dur"]:
+                    continue
+                nxt = [o for o in kernels if o is not k and o["tid"] == k["tid"] and o["ts"] >= k["ts"] + k["dur"]]
+                if any(o["ts"] < new_end for o in nxt):
+                    continue
+                if any(o is not s_ and o["ts"] >= l["ts"] and o["ts"] + o["dur"] < new_end for o in syncs):
+                    continue        # a later synchronisation may have waited for it
+                k["dur"] = new_end - k["ts"]
+                moved += 1
+                break
+    return moved
 
 
 def fractional_durations(rng: random.Random, case: Dict[str, Any], u: int = 4) -> None:
@@ -213,6 +290,8 @@ class _CP(Prop):
     par = 16
 
     def gen_case(self, rng, k, tier):
+        if k % 20 == 7:
+            return skew_case(rng)
         case = gen_cp_case(rng, tier)
         if k % 5 == 4 and all(r["ticks"] == 1 for r in case["ranks"]):
             fractional_durations(rng, case)
